@@ -2,7 +2,7 @@
 import collections, hashlib, json, multiprocessing, os, shutil, sys, tempfile, time, traceback
 
 VERIF = os.path.dirname(os.path.dirname(os.path.abspath(__file__)))
-EVID = os.path.join(VERIF, "evidence")
+EVID = os.environ.get("VERIF_EVIDENCE_DIR") or os.path.join(VERIF, "evidence")   # mutant runs (tools/mutrun.sh) keep theirs apart
 REPLAYS = os.path.join(VERIF, "replays")
 KNOWN_FILE = os.path.join(VERIF, "KNOWN_FINDINGS.json")
 NCPU = int(os.environ.get("VERIF_JOBS", os.cpu_count() or 4))
